@@ -71,7 +71,10 @@ type Ctx struct {
 	NShards int
 	Seed    int64
 	// Coop is true in a worker of the controlled-scheduler build (see Check.CoopWorkers).
-	Coop      bool
+	Coop bool
+	// Race is true in a worker of the -race build (see Check.RaceWorkers).
+	Race      bool
+	raceOff   int64
 	lastBegin atomic.Int64
 
 	res       Result
@@ -112,6 +115,12 @@ type Check struct {
 	// (the same check built against the controlled-scheduler instrumentation); they run with
 	// ctx.Coop == true and shard among themselves.
 	CoopWorkers int
+	// RaceWorkers > 0: that many additional workers are started from the executable "<self>-race" (the
+	// same check built with `go build -race`: real goroutines, free running). They run with
+	// ctx.Race == true; the Go race detector's reports are written to a log that ctx.RaceReports reads.
+	// This is the separate free-running pass that sees ALL memory, i.e. also locations the controlled
+	// scheduler's hooks do not cover; a report is always a true positive.
+	RaceWorkers int
 	// HangSeconds > 0: a worker in which no case begins for that long (ctx.Begin is the heartbeat)
 	// exits with a HANG verdict for the journaled case.
 	HangSeconds int
@@ -226,6 +235,22 @@ func (c *Ctx) Begin(repro func() map[string]any) bool {
 	return true
 }
 
+// RaceReports returns the text the Go race detector has written since the last call ("" if none).
+// Only meaningful in a worker of the -race build (GORACE=log_path is set by the orchestrator).
+func (c *Ctx) RaceReports() string {
+	base := os.Getenv("VERIF_RACE_LOG")
+	if base == "" {
+		return ""
+	}
+	b, err := os.ReadFile(fmt.Sprintf("%s.%d", base, os.Getpid()))
+	if err != nil || int64(len(b)) <= c.raceOff {
+		return ""
+	}
+	out := string(b[c.raceOff:])
+	c.raceOff = int64(len(b))
+	return out
+}
+
 // Journaling reports whether Begin records cases.
 func (c *Ctx) Journaling() bool { return c.journal != "" }
 
@@ -327,6 +352,7 @@ func Main(check *Check) {
 	nworkers := flag.Int("workers", 0, "number of worker processes")
 	budget := flag.Float64("budget", 0, "override enumeration budget in seconds")
 	coop := flag.Bool("coop", false, "worker of the controlled-scheduler build (internal)")
+	raceB := flag.Bool("racebuild", false, "worker of the -race build (internal)")
 	skipFile := flag.String("skip", "", "file with cases to skip, one JSON repro per line (internal)")
 	flag.Parse()
 	log.SetOutput(io.Discard)
@@ -338,7 +364,7 @@ func Main(check *Check) {
 	if *worker != "" {
 		var i, n int
 		fmt.Sscanf(*worker, "%d/%d", &i, &n)
-		runWorker(check, *tier, i, n, seed, *out, *journal, *deadline, *coop, *skipFile)
+		runWorker(check, *tier, i, n, seed, *out, *journal, *deadline, *coop, *skipFile, *raceB)
 		return
 	}
 	os.Exit(orchestrate(check, *tier, seed, *nworkers, *budget))
@@ -357,10 +383,11 @@ func newCtx(check *Check, tier string, i, n int, seed int64) *Ctx {
 			FindingHits: map[string]int64{}, Unspecified: map[string]int64{}}}
 }
 
-func runWorker(check *Check, tier string, i, n int, seed int64, out, journal string, deadline float64, coop bool, skipFile string) {
+func runWorker(check *Check, tier string, i, n int, seed int64, out, journal string, deadline float64, coop bool, skipFile string, race bool) {
 	ctx := newCtx(check, tier, i, n, seed)
 	ctx.journal = journal
 	ctx.Coop = coop
+	ctx.Race = race
 	if skipFile != "" {
 		if b, err := os.ReadFile(skipFile); err == nil {
 			ctx.skip = map[string]bool{}
@@ -444,12 +471,25 @@ func orchestrate(check *Check, tier string, seed int64, nworkers int, budgetOver
 			return 2
 		}
 	}
-	total := n + nc
+	nr := check.RaceWorkers
+	raceExe := self + "-race"
+	if nr > 0 {
+		if _, err := os.Stat(raceExe); err != nil {
+			fmt.Printf("BUILD-FAILED: %s is missing (cannot decide on this tree)\n", raceExe)
+			return 2
+		}
+	}
+	total := n + nc + nr
 	results := make([]*Result, total)
 	var wg sync.WaitGroup
 	launch := func(slot int, journal bool, skipFile string) (res *Result, exitErr error, jfile string) {
 		exe, shard, of, extra := self, slot, n, []string{}
-		if slot >= n {
+		var extraEnv []string
+		if slot >= n+nc {
+			exe, shard, of, extra = raceExe, slot-n-nc, nr, []string{"--racebuild"}
+			rl := filepath.Join(tmp, fmt.Sprintf("race-%d", slot))
+			extraEnv = []string{"GORACE=log_path=" + rl + " halt_on_error=0 history_size=3", "VERIF_RACE_LOG=" + rl, "GOMAXPROCS=4"}
+		} else if slot >= n {
 			exe, shard, of, extra = coopExe, slot-n, nc, []string{"--coop"}
 		}
 		outFile := filepath.Join(tmp, fmt.Sprintf("res-%d.json", slot))
@@ -469,7 +509,7 @@ func orchestrate(check *Check, tier string, seed int64, nworkers int, budgetOver
 		cmd := exec.Command("bash", append([]string{"-c", sh, exe}, args...)...)
 		lf, _ := os.Create(filepath.Join(tmp, fmt.Sprintf("log-%d.txt", slot)))
 		cmd.Stdout, cmd.Stderr = lf, lf
-		cmd.Env = append(os.Environ(), "GOMAXPROCS=2", fmt.Sprintf("VERIF_SEED=%d", seed))
+		cmd.Env = append(append(os.Environ(), "GOMAXPROCS=2", fmt.Sprintf("VERIF_SEED=%d", seed)), extraEnv...)
 		exitErr = cmd.Run()
 		lf.Close()
 		b, err := os.ReadFile(outFile)
@@ -660,6 +700,7 @@ func orchestrate(check *Check, tier string, seed int64, nworkers int, budgetOver
 		"distinct_outcomes":   len(merged.Outcomes),
 		"workers":             n,
 		"coop_workers":        nc,
+		"race_workers":        nr,
 		"budget_s":            budget.Seconds(),
 	}
 	if len(merged.Outcomes) <= 40 {
